@@ -895,6 +895,12 @@ def oracle(ctx, case, res, sig, limit_confirm=60):
     key = case_key(case)
     skel = case["skel"]
     if res[0] == "timeout":
+        # confirm with a long limit, but only a few times per run (a broken tree may hang on many inputs)
+        nconf = getattr(ctx, "_c08_confirmations", 0)
+        if nconf >= 3 or any(v[0] == "occurs-check-escaped" for v in ctx.violations):
+            ctx.count("timeout-unconfirmed")
+            return res
+        ctx._c08_confirmations = nconf + 1
         res2 = run_impl(case, limit_confirm)
         if res2[0] == "timeout":
             ctx.violation("occurs-check-escaped" if ref_infer(case, sig) == ("untypable", "occurs") else "hang:" + key, "type_infer does not return within %d s on %s" % (limit_confirm, tm_str(skel)),
@@ -902,6 +908,12 @@ def oracle(ctx, case, res, sig, limit_confirm=60):
             return res2
         res = res2
     ref = ref_infer(case, sig)
+    if has_arity_mismatch(case):
+        # one defect class: the same type constructor applied to different numbers of arguments
+        if (res[0] == "error" and res[1] not in OWN_ERRORS) or (res[0] == "ok" and isinstance(res[2], tuple) and res[2][:1] == ("illtyped",)):
+            ctx.violation("type-constructor-arity-mismatch", "type_infer(%s): %s" % (tm_str(skel), res[1] if res[0] == "error" else
+                          "returns a term that does not type-check"), replay_dict(case, res))
+            return res
     if res[0] == "error":
         cls = res[1]
         if cls not in OWN_ERRORS:
@@ -979,6 +991,37 @@ def oracle(ctx, case, res, sig, limit_confirm=60):
         ctx.violation("accepted-%s:%s" % (ref[0], key), "type_infer(%s) = %s but the reference says %s" % (tm_str(skel), tm_str(rt), ref[0]),
                       replay_dict(case, res, {"reference": ref[1] if ref[0] == "under" else None}))
     return res
+
+
+def has_arity_mismatch(case):
+    """does the skeleton (or its context) use one type constructor with two different argument counts?"""
+    ar = {}
+    bad = [False]
+
+    def ty(T):
+        if T is not None and T[0] == "c":
+            if ar.setdefault(T[1], len(T[2])) != len(T[2]):
+                bad[0] = True
+            for a in T[2]:
+                ty(a)
+
+    def tm(t):
+        k = t[0]
+        if k in ("var", "svar", "const"):
+            ty(t[2])
+        elif k == "comb":
+            tm(t[1])
+            tm(t[2])
+        elif k == "abs":
+            ty(t[2])
+            tm(t[3])
+    tm(case["skel"])
+    for T in list(case["vars"].values()) + list(case["svars"].values()):
+        ty(T)
+    for n, k in (("fun", 2), ("bool", 0), ("nat", 0), ("int", 0), ("real", 0), ("list", 1), ("set", 1)):
+        if ar.get(n, k) != k:
+            bad[0] = True
+    return bad[0]
 
 
 def canon_impl(res):
@@ -1100,6 +1143,7 @@ def replay(ctx, rp):
         case["declared"] = r.get("declared")
         case["must_recover"] = r.get("must_recover")
     res = run_impl(case, 60)
+    ctx._nreplay = 1000          # do not overwrite the recorded replay files
     print("skeleton:", tm_str(case["skel"]))
     print("result:  ", res if res[0] != "ok" else tm_str(res[1]))
     oracle(ctx, case, res, sig)
@@ -1109,8 +1153,27 @@ def replay(ctx, rp):
 
 
 MANIFEST = {
-    "text": "placeholder",
-    "note": "placeholder",
+    "text": "Lean theorems about an executable model of type_infer (uf / reach / union / unify / infer / final loop, with the fixes "
+            "C08-1 and C08-2): infer_sound (a returned term type-checks, has the skeleton's shape, keeps annotations and declared types, one type "
+            "per unannotated variable name, constants at instances of their signature type, no internal type variable left), unify_sound "
+            "(uf solves every equation unified so far), union_preserves_reach + infer_preserves_reach + final_loop_terminates (the final "
+            "substitution loop terminates on every state the traversal can reach). Model tied to syntax/infertype.py by differential runs on "
+            "generated skeletons; the real type_infer is judged on every generated skeleton by an oracle that needs no model "
+            "(checked_get_type, shape, annotations, declared types, instances, no _tN, exact recovery of erased well-typed terms, and an "
+            "independent textbook unifier deciding typable / under-determined / untypable).",
+    "note": "Trusted: Lean kernel, propext/Classical.choice/Quot.sound, the generators and reference unifier in harness/props/c08.py, "
+            "kernel Term.checked_get_type. Partial: principality (recovers the original or reports under-determined) is checked by the "
+            "reference unifier on generated inputs, not proved; termination of unify is not proved (fuel) - only the final loop; "
+            "context.ctxt.defs (definition parsing) and infer_printed_type are not modelled; reserved names: a user type variable "
+            "called ?'_tN collides with type_infer's internal variables (KeyError / wrong type), excluded by hypothesis; an annotated "
+            "occurrence (x::T) is a distinct variable from an unannotated x (kernel identity name+type) and may get another type.",
     "design_ref": "DESIGN.md 4/C08",
 }
-FINDINGS = []
+FINDINGS = [
+    {"status": "fixed", "key": "occurs-check-escaped", "commit": "fixes/C08-1.patch",
+     "what": "type_infer on `x y & y z & z x` (any occurs-check cycle through a third variable): union() updated reach only for the merged "
+             "class, the cycle was not detected and the final substitution loop grew the types until RecursionError"},
+    {"status": "fixed", "key": "type-constructor-arity-mismatch", "commit": "fixes/C08-2.patch",
+     "what": "type_infer on `(x::(nat,nat) list) = (y::nat list)`: IndexError, and with the sides swapped a result that fails "
+             "checked_get_type (unify ignored surplus type arguments)"},
+]
